@@ -48,7 +48,7 @@ def generate(seed, tier):
     sc['ops'].sort(key=lambda x: x['t'])
     if r.random() < 0.25:
         # Byzantine peer batch: replies a conforming peer may send but this implementation never does, and defective replies
-        sc['byz'] = {'kind': r.choice(['bad_reply', 'bad_reply', 'auth_malformed']), 'seed': r.randrange(2 ** 31)}
+        sc['byz'] = {'kind': r.choice(['bad_reply', 'bad_reply', 'auth_malformed', 'reuse_spi_request']), 'seed': r.randrange(2 ** 31)}
         sc['meta']['byz'] = sc['byz']['kind']
     if tier == 'thorough' and seed % 10 == 0:
         sc['enumerate_kerr'] = 12
